@@ -45,6 +45,7 @@ type Node struct {
 	Mgr            *Manager
 	RealMgr        *messages.Manager
 	UseRealManager bool
+	tickMgr        *tickManager
 	handler        func(peerId string, msgType string, payload []byte) error
 	payCb          func(swapId string, invoiceType swap.InvoiceType)
 	confCb         map[string]func(swapId string, txHex string, err error) error
@@ -116,6 +117,11 @@ func (n *Node) close() {
 		n.Mgr.stopAll()
 		n.W.mu.Unlock()
 	}
+	if n.tickMgr != nil {
+		n.W.mu.Lock()
+		n.tickMgr.stopAll()
+		n.W.mu.Unlock()
+	}
 	if n.DB != nil {
 		n.DB.Close()
 		n.DB = nil
@@ -138,6 +144,9 @@ func (n *Node) Boot() error {
 		n.Proc.dead = true
 		if n.Mgr != nil {
 			n.Mgr.stopAll()
+		}
+		if n.tickMgr != nil {
+			n.tickMgr.stopAll()
 		}
 	}
 	n.Epochs++
@@ -183,7 +192,8 @@ func (n *Node) Boot() error {
 	mgr = n.Mgr
 	if n.UseRealManager {
 		n.RealMgr = messages.NewManager()
-		mgr = &tickManager{p: p, inner: n.RealMgr}
+		n.tickMgr = &tickManager{p: p, inner: n.RealMgr, live: map[string]messages.StoppableMessenger{}}
+		mgr = n.tickMgr
 	}
 	services := swap.NewSwapServices(&RecStore{p: p, inner: store}, rss, &NodeLN{p: p}, &Messenger{p: p}, mgr, pol,
 		n.BtcEnabled, bw, bv, bt, n.LbtcEnabled, lw, lv, lt, ps)
@@ -204,6 +214,9 @@ func (n *Node) Kill() {
 	}
 	if n.Mgr != nil {
 		n.Mgr.stopAll()
+	}
+	if n.tickMgr != nil {
+		n.tickMgr.stopAll()
 	}
 }
 
